@@ -21,6 +21,7 @@ type TestBadSmell struct {
 
 func (a TbsApp) AnalysisPath(deps []core_domain.CodeDataStruct, identifiersMap map[string]core_domain.CodeDataStruct) []TestBadSmell {
 	var results []TestBadSmell = nil
+	deps = core_domain.WithInnerStructures(deps)
 	callMethodMap := core_domain.BuildCallMethodMap(deps)
 	for _, clz := range deps {
 		for _, method := range clz.Functions {
